@@ -95,7 +95,40 @@ def _get_message(self):
 def chomp_spec(format_spec, word):
     requires(is_str(format_spec) and is_str(word) and len(word) > 0)
     raises_nothing()
+    ensures("a_string", is_str(result))
     ensures("no_suffix_no_change", implies(not format_spec.endswith(word), result == format_spec))
     ensures("suffix_removed", implies(format_spec.endswith(word) and not format_spec.endswith(':' + word),
                                       result + word == format_spec))
     ensures("suffix_and_colon_removed", implies(format_spec.endswith(':' + word), result + ':' + word == format_spec))
+
+
+# ---- a field of a message template is rendered by the report's formatter from the field's RAW value --------------
+
+@target("pedal.core.formatting:FeedbackFieldWrapper.__format__")
+def FeedbackFieldWrapper__format__(self, format_spec):
+    requires(is_obj(self) and has_attr(self, 'value') and is_obj(self.formatter) and is_list(self.formatter.available)
+             and is_str(format_spec))
+    requires(forall(lambda j: is_str(item(self.formatter.available, j)) and len(item(self.formatter.available, j)) > 0,
+                    0, nitems(self.formatter.available)))
+    let(names=items(self.formatter.available))
+    abstract("getattr(self.formatter, formatter_name)", raises=None, label="formatter_method",
+             modifies=[ghost('formatted_value'), ghost('formatter_calls')],
+             ensures=[eqv(ghost_val('formatted_value'), arg0), ghost('formatter_calls') == old(ghost('formatter_calls')) + 1,
+                      is_str(result)])
+    abstract("value.__format__", raises=None, label="final_format", modifies=[ghost('final_spec_value')],
+             ensures=[eqv(ghost_val('final_spec_value'), arg0)])
+    modifies(ghost('formatted_value'), ghost('formatter_calls'), ghost('final_spec_value'))
+    raises_nothing()
+    invariant(1, "no_earlier_name_ends_the_spec", is_str(format_spec) and format_spec == entry(format_spec) and is_str(value)
+              and forall(lambda j: not format_spec.endswith(iterated[j]), 0, seen))
+    ensures("formatter_gets_the_raw_value_once", implies(
+        exists(lambda j: format_spec.endswith(names[j]), 0, seq_len(names)),
+        ghost('formatter_calls') == old(ghost('formatter_calls')) + 1 and eqv(ghost_val('formatted_value'), self.value)))
+    ensures("no_formatter_name_no_call", implies(
+        not exists(lambda j: format_spec.endswith(names[j]), 0, seq_len(names)),
+        ghost('formatter_calls') == old(ghost('formatter_calls')) and eqv(ghost_val('final_spec_value'), format_spec)))
+    ensures("rest_of_the_spec_is_applied_to_the_result", exists(
+        lambda j: format_spec.endswith(names[j]) and forall(lambda i: not format_spec.endswith(names[i]), 0, j)
+        and (ghost_val('final_spec_value') + names[j] == format_spec
+             or ghost_val('final_spec_value') + ':' + names[j] == format_spec), 0, seq_len(names))
+        or not exists(lambda j: format_spec.endswith(names[j]), 0, seq_len(names)))
